@@ -4,6 +4,7 @@ import (
 	"go/ast"
 	"go/token"
 	"go/types"
+	"regexp"
 	"sort"
 	"strings"
 
@@ -79,6 +80,7 @@ type excResolver struct {
 	scope   map[string]bool // function keys analysed by this run
 	prog    map[string]bool // function keys of the whole program
 	crossFn bool            // fingerprints identify the construct well enough to follow it into another function
+	norm    func(fp string) string
 }
 
 // newExcResolver: sites are all sites enumerated by the run, scope the analysed functions.
@@ -100,7 +102,58 @@ func newExcResolver(c *Ctx, keys []string, sites, needing []excSiteKey, scope []
 		r.scope[shortFn(f)] = true
 		r.scope[exceptionKey(f)] = true
 	}
+	memo := map[string]string{}
+	r.norm = func(fp string) string {
+		if v, ok := memo[fp]; ok {
+			return v
+		}
+		v := normFingerprint(c, fp)
+		memo[fp] = v
+		return v
+	}
 	return r
+}
+
+var fpFieldSel = regexp.MustCompile(`<([^<>]*)>\.([A-Za-z_][A-Za-z0-9_]*)`)
+
+// normFingerprint replaces every field selection `<T>.f` of a fingerprint by `<type of T.f>`, so
+// that a container reached through a struct and the same container held in a variable look
+// alike. Unresolvable selections are left as they are.
+func normFingerprint(c *Ctx, fp string) string {
+	for round := 0; round < 6; round++ {
+		changed := false
+		fp = fpFieldSel.ReplaceAllStringFunc(fp, func(m string) string {
+			sub := fpFieldSel.FindStringSubmatch(m)
+			tname, field := strings.TrimPrefix(sub[1], "*"), sub[2]
+			dot := strings.LastIndex(tname, ".")
+			if dot < 0 {
+				return m
+			}
+			pkg := c.W.Lib[tname[:dot]]
+			if pkg == nil {
+				return m
+			}
+			obj := pkg.Types.Scope().Lookup(tname[dot+1:])
+			if obj == nil {
+				return m
+			}
+			st, ok := obj.Type().Underlying().(*types.Struct)
+			if !ok {
+				return m
+			}
+			for i := 0; i < st.NumFields(); i++ {
+				if st.Field(i).Name() == field {
+					changed = true
+					return "<" + types.TypeString(st.Field(i).Type(), func(p *types.Package) string { return p.Name() }) + ">"
+				}
+			}
+			return m
+		})
+		if !changed {
+			break
+		}
+	}
+	return fp
 }
 
 func (c *Ctx) fnKeys() map[string]bool {
@@ -150,6 +203,30 @@ func (r *excResolver) resolve(s excSiteKey) string {
 	for _, k := range append(sameFn, samePkg...) {
 		r.used[k] = true
 		return k
+	}
+	// the container moved into (or out of) a struct: `matches[0][0]` became `m.texts[0][0]`. With
+	// field selections replaced by the type of the field the two have the same fingerprint.
+	if r.norm != nil {
+		sn := r.norm(s.fp)
+		var sameFnN, samePkgN []string
+		for k := range r.entries {
+			ek, ok := parseExcKey(k)
+			if !ok || r.norm(ek.fp) != sn || !r.orphaned(k, ek, ek.fn == s.fn) {
+				continue
+			}
+			switch {
+			case ek.fn == s.fn:
+				sameFnN = append(sameFnN, k)
+			case r.crossFn && pkgOfFnKey(ek.fn) == pkgOfFnKey(s.fn):
+				samePkgN = append(samePkgN, k)
+			}
+		}
+		sort.Strings(sameFnN)
+		sort.Strings(samePkgN)
+		for _, k := range append(sameFnN, samePkgN...) {
+			r.used[k] = true
+			return k
+		}
 	}
 	// the expression was rewritten inside the same function (a sub-expression hoisted into a
 	// local, an element copied out first): an orphaned entry of the same function and the same
